@@ -5,7 +5,7 @@ CONSTANTS
   MaxTrace = 2
   RatioNums = {1,3}
   RatioDen = 4
-  AbNums = {0,2,3,8,9,12}
+  AbNums = {0,3,8,9,12}
   AbDen = 8
   Variant = "spec"
   Export = TRUE
